@@ -1273,4 +1273,43 @@ theorem spec_nodup_aux (w : Nat) (t : List (ReplaySpec.Msg × Out)) : ∀ s : St
 
 end Conformance
 
+/-! ### Histories of datagrams (ciphertext length, `stepD`) -/
+
+
+/-- the messages of a datagram history that get past the `pdu->data == NULL` exit -/
+def payloads : List Dgram → List Msg
+  | [] => []
+  | d :: ds => if d.clen = 0 then payloads ds else d.msg :: payloads ds
+
+def finalD (cfg : Cfg) : Recip → List Dgram → Recip
+  | r, [] => r
+  | r, d :: ds => finalD cfg (stepD cfg r d).1 ds
+
+/-- Partial IVs of the requests accepted in a history of datagrams. -/
+def acceptedD (cfg : Cfg) : Recip → List Dgram → List Nat
+  | _, [] => []
+  | r, d :: ds =>
+    (match d.msg with
+      | .req e => if (stepD cfg r d).2 = .acc then [e.piv] else []
+      | .rsp _ => []) ++ acceptedD cfg (stepD cfg r d).1 ds
+
+theorem finalD_eq (cfg : Cfg) (ds : List Dgram) : ∀ r, finalD cfg r ds = final cfg r (payloads ds) := by
+  induction ds with
+  | nil => intro r; rfl
+  | cons d ds ih =>
+    intro r
+    by_cases h : d.clen = 0
+    · simp [finalD, payloads, stepD, h, ih]
+    · simp [finalD, payloads, stepD, h, ih, final]
+
+theorem acceptedD_eq (cfg : Cfg) (ds : List Dgram) : ∀ r, acceptedD cfg r ds = accepted cfg r (payloads ds) := by
+  induction ds with
+  | nil => intro r; rfl
+  | cons d ds ih =>
+    intro r
+    by_cases h : d.clen = 0
+    · cases hm : d.msg <;> simp [acceptedD, payloads, stepD, h, ih, hm]
+    · cases hm : d.msg <;> simp [acceptedD, payloads, stepD, h, ih, hm, accepted, acceptedBy, step]
+
+
 end Coap.Replay
